@@ -381,6 +381,14 @@ def size_ladder():
         out.append("".join("[CH3:{}]".format(k) if k in (1, n) and n > 1 else ("[CH4:1]" if n == 1 else "[CH2:{}]".format(k))
                            for k in range(1, n + 1)))
         out.append(".".join("[OH2:{}]".format(k) for k in range(1, n + 1)))
+        if n in (1, 2, 9, 10, 11, 99, 100):
+            # ring-closure numbers of one, two ('%nn') digits next to mapped bracket atoms, two-letter elements
+            rc = str(n) if n < 10 else "%{}".format(n)
+            out.append("[CH2:{0}]{1}[CH2:{2}][CH2:{3}]{1}".format(n, rc, n + 1, n + 2))
+            out.append("[CH:{0}]{1}=[CH:{2}][Se:{3}][CH:{4}]=[CH:{5}]{1}".format(n, rc, n + 1, n + 2, n + 3, n + 4))
+            out.append("[Cl:{0}][Si:{1}]{2}([Br:{3}])[CH2:{4}][CH2:{5}]{2}".format(n, n + 1, rc, n + 2, n + 3, n + 4))
+            out.append("[Cl:{6}][c:{0}]{1}[cH:{2}][cH:{3}][n:{4}][cH:{5}][cH:{7}]{1}".format(n, rc, n + 1, n + 2, n + 3, n + 4, n + 6, n + 5))
+            out.append("[13CH3:{0}][C@@H:{1}]([NH3+:{2}])[C:{3}](=[O:{4}])[O-:{5}]".format(n, n + 1, n + 2, n + 3, n + 4, n + 5))
         out.append("".join("[CH2:{}][CH2:{}][O:{}]".format(3 * k + 1, 3 * k + 2, 3 * k + 3) for k in range(n)) + "[CH3:{}]".format(3 * n + 1)
                    + ">>" + "[OH2:{}]".format(3 * n + 2))
     return out
